@@ -106,10 +106,16 @@ class Compiler:
                 }
             }
             if isinstance(e.error, SyntaxError):
+                column = e.error.offset
+                text = e.error.text
+                if text and column and "\n" in text[: column - 1]:
+                    # after a backslash continuation the offset counts from the
+                    # start of the logical line, the line number is the physical one
+                    column -= text.rfind("\n", 0, column - 1) + 1
                 d["error"].update(
                     {
                         "line": e.error.lineno,
-                        "column": e.error.offset,
+                        "column": column,
                     }
                 )
             return d
